@@ -113,23 +113,43 @@ theorem Inv.reads_readOnly {K : Bytes → Prop} (hK : WFKeys K) {s : State} {m :
   · rw [if_pos h]; exact ⟨h ▸ hi.rep.reads_lss hK [{}], rfl⟩
   · rw [if_neg h]; exact ⟨hi.rep.reads_hss hK hv [{}], rfl⟩
 
+/-- **what an operation does to the versioned map**: a commit (outside nested transactions) adds the pending
+operations as the next version, an accepted rollback forgets every version above its target, nothing else
+changes it -/
+def specApply (s : State) (m : VMap) : Op → VMap
+  | .commit => match s.main with
+    | [l] => m.commit l.ov (s.version + 1)
+    | _ => m
+  | .rollback t => match s.main with
+    | [_] => if t = 0 ∨ s.version ≤ t then m else m.rollback t
+    | _ => m
+  | _ => m
+
+/-- the versioned map a sequence of operations builds -/
+def specRun (s : State) (m : VMap) : List Op → VMap
+  | [] => m
+  | op :: ops => specRun (s.apply op) (specApply s m op) ops
+
 /-- **every operation preserves the invariant**, and changes the versioned map only by committing a
 new version or by forgetting the versions above a rollback target -/
-theorem Inv.apply {K : Bytes → Prop} (hK : WFKeys K) {s : State} {m : VMap} (hi : Inv K s m) (op : Op)
+theorem Inv.apply_spec {K : Bytes → Prop} (hK : WFKeys K) {s : State} {m : VMap} (hi : Inv K s m) (op : Op)
     (hop : OpOK K op) (hver : s.version + 1 < maxVer) :
-    ∃ m', Inv K (s.apply op) m' ∧ (s.apply op).version ≤ s.version + 1 ∧
-      ∀ v, v ≤ s.version → KeepsHistory v op → (v ≤ (s.apply op).version ∧ ∀ k, readAt m' v k = readAt m v k) := by
+    Inv K (s.apply op) (specApply s m op) ∧ (s.apply op).version ≤ s.version + 1 ∧
+      ∀ v, v ≤ s.version → KeepsHistory v op →
+        (v ≤ (s.apply op).version ∧ ∀ k, readAt (specApply s m op) v k = readAt m v k) := by
   have same : ∀ s' : State, s'.db = s.db → s'.version = s.version → LayersOK K s'.main →
-      (∀ h ∈ s'.copies ++ s'.held, SideOK K h) →
-      ∃ m', Inv K s' m' ∧ s'.version ≤ s.version + 1 ∧
-        ∀ v, v ≤ s.version → KeepsHistory v op → (v ≤ s'.version ∧ ∀ k, readAt m' v k = readAt m v k) := by
-    intro s' h1 h2 h3 h4
-    exact ⟨m, ⟨by rw [h1, h2]; exact hi.rep, h3, h4⟩, by omega, fun v hv _ => ⟨by omega, fun _ => rfl⟩⟩
+      (∀ h ∈ s'.copies ++ s'.held, SideOK K h) → specApply s m op = m →
+      Inv K s' (specApply s m op) ∧ s'.version ≤ s.version + 1 ∧
+        ∀ v, v ≤ s.version → KeepsHistory v op →
+          (v ≤ s'.version ∧ ∀ k, readAt (specApply s m op) v k = readAt m v k) := by
+    intro s' h1 h2 h3 h4 h5
+    rw [h5]
+    exact ⟨⟨by rw [h1, h2]; exact hi.rep, h3, h4⟩, by omega, fun v hv _ => ⟨by omega, fun _ => rfl⟩⟩
   cases op with
-  | set k v => exact same _ rfl rfl (layersOK_write (hd := s.handle) hi.main hop _) hi.side
-  | del k => exact same _ rfl rfl (layersOK_write (hd := s.handle) hi.main hop _) hi.side
+  | set k v => exact same _ rfl rfl (layersOK_write (hd := s.handle) hi.main hop _) hi.side rfl
+  | del k => exact same _ rfl rfl (layersOK_write (hd := s.handle) hi.main hop _) hi.side rfl
   | nest =>
-    refine same _ rfl rfl ?_ hi.side
+    refine same _ rfl rfl ?_ hi.side rfl
     intro l hl
     rcases List.mem_cons.mp hl with rfl | hl
     · exact ⟨List.Pairwise.nil, by simp⟩
@@ -137,17 +157,17 @@ theorem Inv.apply {K : Bytes → Prop} (hK : WFKeys K) {s : State} {m : VMap} (h
   | flush =>
     simp only [State.apply]
     cases hf : flushLayers s.main with
-    | none => exact same _ rfl rfl hi.main hi.side
-    | some ls => exact same _ rfl rfl (layersOK_flush hi.main hf) hi.side
+    | none => exact same _ rfl rfl hi.main hi.side rfl
+    | some ls => exact same _ rfl rfl (layersOK_flush hi.main hf) hi.side rfl
   | discard =>
     simp only [State.apply]
     cases hm : s.main with
-    | nil => exact same _ rfl rfl hi.main hi.side
+    | nil => exact same _ rfl rfl hi.main hi.side rfl
     | cons top rest =>
       cases rest with
-      | nil => exact same _ rfl rfl hi.main hi.side
+      | nil => exact same _ rfl rfl hi.main hi.side rfl
       | cons below rest =>
-        refine same _ rfl rfl ?_ hi.side
+        refine same _ rfl rfl ?_ hi.side rfl
         intro l hl
         have hmain := hi.main
         rw [hm] at hmain
@@ -157,50 +177,55 @@ theorem Inv.apply {K : Bytes → Prop} (hK : WFKeys K) {s : State} {m : VMap} (h
   | pop =>
     simp only [State.apply]
     cases hm : s.main with
-    | nil => exact same _ rfl rfl hi.main hi.side
+    | nil => exact same _ rfl rfl hi.main hi.side rfl
     | cons top rest =>
       cases rest with
-      | nil => exact same _ rfl rfl hi.main hi.side
+      | nil => exact same _ rfl rfl hi.main hi.side rfl
       | cons below rest =>
-        refine same _ rfl rfl ?_ hi.side
+        refine same _ rfl rfl ?_ hi.side rfl
         have hmain := hi.main
         rw [hm] at hmain
         exact fun l hl => hmain l (List.mem_cons_of_mem _ hl)
   | commit =>
     simp only [State.apply, State.commit]
     cases hm : s.main with
-    | nil => exact same _ rfl rfl hi.main hi.side
+    | nil => exact same _ rfl rfl hi.main hi.side (by simp only [specApply, hm] <;> first | rfl | (rw [if_pos (by omega)]))
     | cons l rest =>
       cases rest with
-      | cons _ _ => exact same _ rfl rfl hi.main hi.side
+      | cons _ _ => exact same _ rfl rfl hi.main hi.side (by simp only [specApply, hm] <;> first | rfl | (rw [if_pos (by omega)]))
       | nil =>
         have hl := hi.main l (by rw [hm]; exact List.mem_cons_self)
-        refine ⟨m.commit l.ov (s.version + 1), ⟨hi.rep.commit l.ov hl.1 hl.2 hver, layersOK_empty K, hi.side⟩,
+        have hsp : specApply s m .commit = m.commit l.ov (s.version + 1) := by simp [specApply, hm]
+        rw [hsp]
+        refine ⟨⟨hi.rep.commit l.ov hl.1 hl.2 hver, layersOK_empty K, hi.side⟩,
           Nat.le_refl _, fun v hv _ => ⟨by show v ≤ s.version + 1; omega, fun k => readAt_commit_old hi.rep.uniq hi.rep.vb hl.1 hv k⟩⟩
   | rollback t =>
     simp only [State.apply]
     cases hm : s.main with
-    | nil => exact same _ rfl rfl hi.main hi.side
+    | nil => exact same _ rfl rfl hi.main hi.side (by simp only [specApply, hm] <;> first | rfl | (rw [if_pos (by omega)]))
     | cons l rest =>
       cases rest with
-      | cons _ _ => exact same _ rfl rfl hi.main hi.side
+      | cons _ _ => exact same _ rfl rfl hi.main hi.side (by simp only [specApply, hm] <;> first | rfl | (rw [if_pos (by omega)]))
       | nil =>
         simp only
         unfold State.rollback
         by_cases h0 : t = 0
-        · rw [if_pos h0]; exact same _ rfl rfl hi.main hi.side
+        · rw [if_pos h0]; exact same _ rfl rfl hi.main hi.side (by simp only [specApply, hm] <;> first | rfl | (rw [if_pos (by omega)]))
         · rw [if_neg h0]
           by_cases h1 : t > s.version
-          · rw [if_pos h1]; exact same _ rfl rfl hi.main hi.side
+          · rw [if_pos h1]; exact same _ rfl rfl hi.main hi.side (by simp only [specApply, hm] <;> first | rfl | (rw [if_pos (by omega)]))
           · rw [if_neg h1]
             by_cases h2 : t = s.version
-            · rw [if_pos h2]; exact same _ rfl rfl hi.main hi.side
+            · rw [if_pos h2]; exact same _ rfl rfl hi.main hi.side (by simp only [specApply, hm] <;> first | rfl | (rw [if_pos (by omega)]))
             · rw [if_neg h2]
               simp only [Option.getD_some]
-              refine ⟨m.rollback t, ⟨hi.rep.rollback hK (by omega), layersOK_empty K, hi.side⟩, by show t ≤ _; omega,
+              have hsp : specApply s m (.rollback t) = m.rollback t := by
+                simp only [specApply, hm]; rw [if_neg (by omega)]
+              rw [hsp]
+              refine ⟨⟨hi.rep.rollback hK (by omega), layersOK_empty K, hi.side⟩, by show t ≤ _; omega,
                 fun v hv hk => ⟨hk, fun k => readAt_rollback hi.rep.uniq hk k⟩⟩
   | copy =>
-    refine same _ rfl rfl hi.main ?_
+    refine same _ rfl rfl hi.main ?_ rfl
     intro h hh
     simp only [State.apply, List.append_assoc, List.mem_append, List.mem_singleton] at hh
     rcases hh with hh | rfl | hh
@@ -216,9 +241,9 @@ theorem Inv.apply {K : Bytes → Prop} (hK : WFKeys K) {s : State} {m : VMap} (h
   | cset i k v =>
     simp only [State.apply]
     cases hc : s.copies[i]? with
-    | none => exact same _ rfl rfl hi.main hi.side
+    | none => exact same _ rfl rfl hi.main hi.side rfl
     | some h0 =>
-      refine same _ rfl rfl hi.main ?_
+      refine same _ rfl rfl hi.main ?_ rfl
       intro h hh
       rcases List.mem_append.mp hh with hh | hh
       · rcases List.mem_or_eq_of_mem_set hh with hh | rfl
@@ -228,9 +253,9 @@ theorem Inv.apply {K : Bytes → Prop} (hK : WFKeys K) {s : State} {m : VMap} (h
   | cdel i k =>
     simp only [State.apply]
     cases hc : s.copies[i]? with
-    | none => exact same _ rfl rfl hi.main hi.side
+    | none => exact same _ rfl rfl hi.main hi.side rfl
     | some h0 =>
-      refine same _ rfl rfl hi.main ?_
+      refine same _ rfl rfl hi.main ?_ rfl
       intro h hh
       rcases List.mem_append.mp hh with hh | hh
       · rcases List.mem_or_eq_of_mem_set hh with hh | rfl
@@ -238,13 +263,20 @@ theorem Inv.apply {K : Bytes → Prop} (hK : WFKeys K) {s : State} {m : VMap} (h
         · exact sideOK_write (hi.side h0 (List.mem_append_left _ (List.mem_of_getElem? hc))) hop _
       · exact hi.side h (List.mem_append_right _ hh)
   | hold v =>
-    refine same _ rfl rfl hi.main ?_
+    refine same _ rfl rfl hi.main ?_ rfl
     intro h hh
     simp only [State.apply, ← List.append_assoc, List.mem_append, List.mem_singleton] at hh
     rcases hh with hh | rfl
     · exact hi.side h (List.mem_append.mpr hh)
     · have := hi.reads_readOnly hK (v := v) hop
       exact ⟨⟨m, v, this.1⟩, by rw [this.2]; exact layersOK_empty K⟩
+
+/-- the existential form: some versioned map is represented after the operation -/
+theorem Inv.apply {K : Bytes → Prop} (hK : WFKeys K) {s : State} {m : VMap} (hi : Inv K s m) (op : Op)
+    (hop : OpOK K op) (hver : s.version + 1 < maxVer) :
+    ∃ m', Inv K (s.apply op) m' ∧ (s.apply op).version ≤ s.version + 1 ∧
+      ∀ v, v ≤ s.version → KeepsHistory v op → (v ≤ (s.apply op).version ∧ ∀ k, readAt m' v k = readAt m v k) :=
+  ⟨_, hi.apply_spec hK op hop hver⟩
 
 end Canopy.Store
 
@@ -402,5 +434,18 @@ theorem specView_discard (top : Layer) (rest : List Layer) (f : Bytes → Option
     specView ({ top with ov := [] } :: rest) f = specView rest f := by
   funext k
   simp [specView, applyOv, smGet]
+
+/-- **a run represents exactly the versioned map `specRun` computes** -/
+theorem Inv.run_spec {K : Bytes → Prop} (hK : WFKeys K) : ∀ (ops : List Op) {s : State} {m : VMap}, Inv K s m →
+    (∀ op ∈ ops, OpOK K op) → s.version + ops.length + 1 < maxVer →
+    Inv K (runOps s ops) (specRun s m ops) := by
+  intro ops
+  induction ops with
+  | nil => intro s m hi _ _; exact hi
+  | cons op ops ih =>
+    intro s m hi hops hver
+    simp only [List.length_cons] at hver
+    obtain ⟨hi1, hv1, _⟩ := hi.apply_spec hK op (hops op List.mem_cons_self) (by omega)
+    exact ih hi1 (fun o ho => hops o (List.mem_cons_of_mem _ ho)) (by omega)
 
 end Canopy.Store
